@@ -1479,7 +1479,24 @@ pub fn tracker_faults(seed: u64) -> Plan {
     let names: Vec<String> = p.peers.iter().map(|x| x.name.clone()).collect();
     let lat = *r.pick(&[1u64, 100, 1000]);
     total_ms += lat;
-    p.tracker.steps.push((lat, TrackerStep::Good { peers: names, malformed: r.range(0, 4) as u32, wrong_id_for: vec![] }));
+    p.tracker.steps.push((lat, TrackerStep::Good { peers: names.clone(), malformed: r.range(0, 4) as u32, wrong_id_for: vec![] }));
+    // flapping tracker: after the first good reply it fails again for a while (matters when the
+    // client has to re-announce, possibly from several announce tasks at once)
+    let flapping = r.chance(1, 3);
+    for _ in 0..(if flapping { r.range(1, 3) } else { 0 }) {
+        for _ in 0..r.range(1, 70) {
+            let lat = *r.pick(&[0u64, 1, 50, 300]);
+            let stepk = match r.below(4) {
+                0 => TrackerStep::Refused,
+                1 => TrackerStep::Http(503),
+                2 => TrackerStep::Failure("try later".into()),
+                _ => TrackerStep::Garbage(b"x".to_vec()),
+            };
+            total_ms += lat + 1000;
+            p.tracker.steps.push((lat, stepk));
+        }
+        p.tracker.steps.push((1, TrackerStep::Good { peers: names.clone(), malformed: 0, wrong_id_for: vec![] }));
+    }
     // an honest peer dials in somewhere inside the failure run
     let mut d = base_peer(k, n);
     d.listed = false;
@@ -1492,7 +1509,7 @@ pub fn tracker_faults(seed: u64) -> Plan {
     d.script.push(step(When::At(5), Act::Send(Msg::Interested)));
     p.peers.push(d);
     // re-announce: every listed peer leaves, the client has to ask the tracker again
-    if r.chance(1, 4) {
+    if flapping || r.chance(1, 4) {
         for peer in p.peers.iter_mut().take(k) {
             peer.unchoke = Unchoke::Never;
             peer.script.push(step(When::At(r.range(100, 3000)), Act::CloseFin));
